@@ -8,8 +8,8 @@
 (*                                   step somewhere in between; disp must be what the spec    *)
 (*                                   says in that state                                       *)
 (*   inp{k,id} inpdone{id,disp}      the same for the input pump (InBegin .. InCheck)         *)
-(*   tsrv{c,id}                      a write to the server: can -> HzeStart (in whatever      *)
-(*                                   caller) or WCancel; cr -> CleanupFires; hout -> ReadFwd  *)
+(*   tsrv{c,id}                      a write to the server: can -> HzeSrv or WCancel;          *)
+(*                                   cr -> CleanupWrite; hout -> ReadFwd                      *)
 (*   msg{m}                          HzeMsg with that cause / WMsg with that exit status      *)
 (*   cur{v}                          cursor escape: exactly the one the pump's turn writes    *)
 (*                                   (hide at Detect, show when the filter lets go)           *)
@@ -100,10 +100,11 @@ TInp == /\ IsEvent("inp") /\ ipend.st = "none"
         /\ ipend' = [NoIPend EXCEPT !.st = "fed", !.k = Ev.k, !.id = Ev.id]
         /\ UNCHANGED vars /\ Keep(<<run, pend, hq, fwdIds, got, echo, stuck>>)
 
-(* sendInput up to (not including) a winning handleZmodemError *)
+(* sendInput up to the point where it checks isTransferringFiles (a Ctrl-C may have won the CAS *)
+(* of handleZmodemError: its writes follow as HzeSrv / HzeMsg events)                           *)
 TInBeginSilent ==
     /\ ipend.st = "fed" /\ Silent
-    /\ InBegin(ipend.k) /\ hze' = hze /\ ~crashed'
+    /\ InBegin(ipend.k) /\ ~crashed'
     /\ ipend' = [ipend EXCEPT !.st = "in"]
     /\ Keep(<<run, pend, hq, fwdIds, got, echo, stuck>>)
 
@@ -122,17 +123,10 @@ TInpDone ==
 (* ---- writes to the server ---- *)
 TCan ==
     /\ IsEvent("tsrv") /\ Ev.c = "can"
-    /\ \/ /\ ipend.st = "fed" /\ InBegin(ipend.k) /\ hze'.pc = "cmd"
-          /\ ipend' = [ipend EXCEPT !.st = "in"]
-       \/ /\ LaunchFail /\ hze'.pc = "cmd" /\ hze.pc = "idle" /\ UNCHANGED ipend
-       \/ /\ ReadErr /\ hze'.pc = "cmd" /\ hze.pc = "idle" /\ UNCHANGED ipend
-       \/ /\ ClientTimerFires /\ hze'.pc = "cmd" /\ hze.pc = "idle" /\ UNCHANGED ipend
-       \/ /\ ServerTimerFires /\ hze'.pc = "cmd" /\ hze.pc = "idle" /\ UNCHANGED ipend
-       \/ /\ WCancel /\ UNCHANGED ipend
-    /\ hq' = IF pcE' = "hze" /\ pcE = "read" THEN <<>> ELSE hq       \* ReadErr loses unread output
-    /\ Keep(<<run, pend, fwdIds, got, echo, stuck>>)
+    /\ HzeSrv \/ WCancel
+    /\ Keep(<<run, pend, ipend, hq, fwdIds, got, echo, stuck>>)
 
-TCr == /\ IsEvent("tsrv") /\ Ev.c = "cr" /\ CleanupFires
+TCr == /\ IsEvent("tsrv") /\ Ev.c = "cr" /\ CleanupWrite
        /\ Keep(<<run, pend, ipend, hq, fwdIds, got, echo, stuck>>)
 
 (* ensureOverAndOut writes OO *before* the chunk that completed the pair is forwarded: the echo may  *)
@@ -193,12 +187,10 @@ THin ==
 (* ---- silent internal steps ---- *)
 TSilent ==
     /\ Silent /\ More
-    /\ \/ EInit \/ Sleep100 \/ Launch \/ ReadEOF \/ Break \/ WaitReturns \/ WStore \/ WArm \/ Kill
-       \/ (LaunchFail /\ hze' = hze)
-       \/ (ReadErr /\ hze' = hze)
-       \/ (ClientTimerFires /\ hze' = hze)
-       \/ (ServerTimerFires /\ hze' = hze)
-    /\ hq' = IF pcE = "read" /\ pcE' = "brk" /\ hlpQ' = <<>> THEN <<>> ELSE hq
+    /\ \/ EInit \/ Sleep100 \/ Launch \/ LaunchFail \/ ReadEOF \/ ReadErr \/ Break
+       \/ WaitReturns \/ WStore \/ WArm \/ Kill \/ CleanupFires
+       \/ ClientTimerFires \/ ServerTimerFires
+    /\ hq' = IF pcE = "read" /\ pcE' \in {"brk", "hze"} /\ hlpQ' = <<>> THEN <<>> ELSE hq
     /\ Keep(<<run, pend, ipend, fwdIds, got, echo, stuck>>)
 
 TLaunch ==
